@@ -29,8 +29,12 @@ def allocConsumers (db : DB R) : List Nat := (db.allocs.map (·.consumer)).erase
 def consumerViewAmount (db : DB R) (c n : Nat) : Int :=
   (((allocTriples (getAllocations 39 db c).2).filter (fun t => t.2.1 == n)).map (·.2.2)).sum
 
-/-- the consumers `GET /usages?project_id=P[&user_id=U]` speaks about -/
+/-- the consumers `GET /usages?project_id=P[&user_id=U]` speaks about, with a condition on their type -/
+def consumersOfT (db : DB R) (project : Nat) (user : Option Nat) (tp : Option Nat → Bool) : List ConsRow :=
+  db.consumers.filter (usageMatch project user tp)
+
+/-- ... of any type -/
 def consumersOf (db : DB R) (project : Nat) (user : Option Nat) : List ConsRow :=
-  db.consumers.filter (fun c => c.project == project && (match user with | some u => c.user == u | none => true))
+  consumersOfT db project user (fun _ => true)
 
 end Placement.C11Reads
